@@ -115,6 +115,17 @@ func (c07) Generate(r *engine.Rand, index int, tier string) *engine.Scenario {
 				add(0xa000+uint16(r.Intn(0x2000)), r.EdgeByte())
 				continue
 			}
+			if sc.Cart.Kind == "mbc3" && r.Chance(1, 6) {
+				// MBC3: a store into the window under each kind of select (RAM banks, clock registers, the
+				// unmapped codes 0D-0F), then a RAM bank selected again: each write judged on its own
+				if r.Chance(1, 2) {
+					add(uint16(r.Intn(0x2000)), 0x0a)
+				}
+				add(0x4000+uint16(r.Intn(0x2000)), engine.Pick(r, []uint8{0, 1, 2, 3, 0x08, 0x0c, 0x0d, 0x0e, 0x0f, 0x0d, 0x0f, 0x07}))
+				add(0xa000+uint16(r.Intn(0x2000)), r.EdgeByte())
+				add(0x4000+uint16(r.Intn(0x2000)), uint8(r.Intn(4)))
+				continue
+			}
 			var a uint16
 			switch r.Intn(8) {
 			case 0:
@@ -409,17 +420,26 @@ func (c07) Execute(sc *engine.Scenario) *engine.Result {
 			}
 			if blindCtl != 0 && res.Violation == nil {
 				res.Probe("control_write_and_store_unobserved_in_between")
+			}
+			if cartWrite := ev.A < 0x8000 || (ev.A >= 0xa000 && ev.A < 0xc000); (cartWrite || blindCtl != 0) && sc.Cart.Kind != "rom" && res.Violation == nil {
+				// what a write to the cartridge leaves in the two ROM windows and the RAM window is what the
+				// reference cartridge says (a byte stored where it does not belong shows up when its bank is
+				// selected later); clock registers of an MBC3 are C10's business
+				clock := sc.Cart.Kind == "mbc3" && ct.RamB >= 0x08
 				for c := 0; c < 0xc000; c++ {
 					if c >= 0x8000 && c < 0xa000 {
 						continue
 					}
+					if c >= 0xa000 && clock {
+						break
+					}
 					if want, _ := ct.Read(uint16(c)); after[c] != want {
-						res.Fail("C07/cart-windows-after-control-and-store", m.N, "write %04x<-?? and store %04x<-%02x with no observation in between: %04x reads %02x afterwards, the reference cartridge says %02x", blindCtl, ev.A, ev.V, c, after[c], want)
+						res.Fail("C07/cart-windows-after-write", m.N, "write %04x<-%02x (control write before it unobserved: %v): %04x reads %02x afterwards, the reference cartridge says %02x", ev.A, ev.V, blindCtl != 0, c, after[c], want)
 						break
 					}
 				}
-				blindCtl = 0
 			}
+			blindCtl = 0
 			if changedOther && res.Violation == nil {
 				res.Probe("write_changed_other_location_legally")
 			}
